@@ -20,19 +20,32 @@ Definition seg_eqb (a b : seg) : bool :=
 
 (* normalize_path: `progress` is kept reversed (a stack).
      for step in path:
-         if step == '..' and len(progress) > 0: progress = progress[:-1]
+         if step == '..' and len(progress) > 0 and progress[-1] != '..': progress = progress[:-1]
          else: progress.append(step)                                     *)
 Fixpoint norm_go (stack : list seg) (path : list seg) : list seg :=
   match path with
   | [] => stack
   | Up :: r => match stack with
                | [] => norm_go [Up] r
-               | _ :: s' => norm_go s' r
+               | Up :: _ => norm_go (Up :: stack) r      (* a kept leading '..' is not cancelled by another one *)
+               | Dn _ :: s' => norm_go s' r
                end
   | Dn k :: r => norm_go (Dn k :: stack) r
   end.
 
 Definition normalize (path : list seg) : list seg := rev (norm_go [] path).
+
+(* the pinned code: a '..' cancelled whatever was last kept, another '..' included *)
+Fixpoint norm_go_pinned (stack : list seg) (path : list seg) : list seg :=
+  match path with
+  | [] => stack
+  | Up :: r => match stack with
+               | [] => norm_go_pinned [Up] r
+               | _ :: s' => norm_go_pinned s' r
+               end
+  | Dn k :: r => norm_go_pinned (Dn k :: stack) r
+  end.
+Definition normalize_pinned (path : list seg) : list seg := rev (norm_go_pinned [] path).
 
 Definition dn (p : list key) : list seg := map Dn p.
 
@@ -120,8 +133,7 @@ Fixpoint assoc_path (d : tree) (path : list key) (value : tree) : res tree :=
   end.
 
 (* ---------- topology.update_in ---------- *)
-(* returns a shallow-copied spine; `d.setdefault(head, {})` also mutates the argument,
-   which update_in_arg describes *)
+(* returns a shallow-copied spine; the argument is left alone (update_in_arg) *)
 Fixpoint update_in (d : tree) (path : list key) (f : tree -> tree) : res tree :=
   match path with
   | [] => Ok (f d)
@@ -134,7 +146,12 @@ Fixpoint update_in (d : tree) (path : list key) (f : tree -> tree) : res tree :=
     end
   end.
 
-Fixpoint update_in_arg (d : tree) (path : list key) : res tree :=
+(* the argument after the call: unchanged (an error when the call raises) *)
+Definition update_in_arg (d : tree) (path : list key) : res tree :=
+  rbind (update_in d path (fun x => x)) (fun _ => Ok d).
+
+(* pinned: every level began with d.setdefault(head, {}) on the caller's dictionary *)
+Fixpoint update_in_arg_pinned (d : tree) (path : list key) : res tree :=
   match path with
   | [] => Ok d
   | h :: r =>
@@ -142,7 +159,7 @@ Fixpoint update_in_arg (d : tree) (path : list key) : res tree :=
     | Lf _ => Err ETypeThroughLeaf
     | Nd c =>
       let s := match alookup h c with Some s => s | None => Nd [] end in
-      rbind (update_in_arg s r) (fun s' => Ok (Nd (aset h s' c)))
+      rbind (update_in_arg_pinned s r) (fun s' => Ok (Nd (aset h s' c)))
     end
   end.
 
